@@ -18,6 +18,13 @@ AXIOMS = {
 }
 
 
+# Declared struct invariants (checked inductively by the range engine: assumed on entry of &self / &mut self methods, proven at every
+# construction and at every return of a &mut self method; C14-R7 checks that nothing else writes the fields).
+STRUCT_INVARIANTS = {
+    "libpatch::util::search::SearcherIterator": [("v", "position", "#", "haystack", 0)],     # position <= haystack.len()
+}
+
+
 def order_callee_first(cg, scope):
     order, seen = [], set()
 
@@ -99,6 +106,7 @@ def analyse_scope(prog, cg, scope, libcalls=False):
     """Returns (obligations, analyzer). Obligations carry .ok and, when discharged by an axiom, .axiom.
     libcalls=True adds one obligation per external call that is not in the reviewed-total table (see libcalls.py)."""
     an = ranges.Analyzer(prog)
+    an.invariants = {adt: invs for adt, invs in STRUCT_INVARIANTS.items() if adt in prog.adts}
     order = order_callee_first(cg, scope)
     results = {}
     for fid in order:
